@@ -405,33 +405,20 @@ Definition kept_groups (o : table) (labels : list Z) (min_group : Z) : list (Z *
   filter (big_enough min_group) (groups labels (vrecs o) false).
 
 Lemma collapse_rows_inv o labels norm min_group incl c :
-  collapse_rows o labels norm min_group incl = ROk c ->
+  collapse_rows o labels norm min_group incl = c ->
   let gs := kept_groups o labels min_group in
   c = mkC (mkT (map fst gs) (sids o)
                (map (fun g => col_sums (nsamp o) (map v_row (snd g))) gs)
                (if incl then ctor_md (Some (map (fun g => collapsed_md (map v_id (snd g))) gs)) else None)
                (ctor_md (smd o)) (ttype o))
           (map (fun g => if norm then Z.of_nat (length (snd g)) else 1%Z) gs).
-Proof.
-  unfold collapse_rows, kept_groups, big_enough. cbv zeta.
-  destruct (filter _ (groups labels (vrecs o) false)) as [|g0 gs]; destruct (sids o); intros H; inversion H; reflexivity.
-Qed.
-
-Lemma collapse_rows_refuses o labels norm min_group incl e :
-  collapse_rows o labels norm min_group incl = RErr e <->
-  kept_groups o labels min_group = [] /\ sids o <> [] /\ e = E_TABLE.
-Proof.
-  unfold collapse_rows, kept_groups, big_enough. cbv zeta.
-  destruct (filter _ (groups labels (vrecs o) false)) as [|g0 gs]; destruct (sids o); split;
-    try discriminate; try (intros (A & B & C); congruence).
-  intros H. inversion H. repeat split; discriminate.
-Qed.
+Proof. intros <-. reflexivity. Qed.
 
 Section CollapseRows.
   Variables (o : table) (labels : list Z) (norm : bool) (min_group : Z) (incl : bool) (c : collapsed).
   Hypothesis W : wf o.
   Hypothesis Hl : length labels = nobs o.
-  Hypothesis Hc : collapse_rows o labels norm min_group incl = ROk c.
+  Hypothesis Hc : collapse_rows o labels norm min_group incl = c.
 
   Let gs := kept_groups o labels min_group.
   Let members (l : Z) := select (map (Z.eqb l) labels) (oids o).
@@ -581,7 +568,7 @@ Proof.
 Qed.
 
 Lemma cr_conserves o labels norm min_group incl c y j :
-  wf o -> length labels = nobs o -> collapse_rows o labels norm min_group incl = ROk c ->
+  wf o -> length labels = nobs o -> collapse_rows o labels norm min_group incl = c ->
   (min_group <= 1)%Z -> pos y (sids o) = Some j ->
   zsum (map (fun l => cell0 (ctab c) l y) (oids (ctab c))) = zsum (map (fun x => cell0 o x y) (oids o)).
 Proof.
@@ -608,13 +595,12 @@ Definition mode_ok (mode : Z) : bool := Z.eqb mode 0 || Z.eqb mode 1.
 Lemma collapse_o2o_inv t a lab min_group norm incl mode c :
   collapse_t t a (OneToOne lab min_group) norm incl mode = ROk c ->
   mode_ok mode = true /\ lab_error lab = None /\
-  exists c', collapse_rows (orient a t) (labels_of lab (ids a t)) norm min_group incl = ROk c' /\
+  exists c', collapse_rows (orient a t) (labels_of lab (ids a t)) norm min_group incl = c' /\
              c = mkC (orient a (ctab c')) (cdiv c').
 Proof.
   unfold collapse_t. fold (mode_ok mode). destruct (mode_ok mode); cbn [negb]; [|discriminate].
   destruct (lab_error lab); [discriminate|]. rewrite oids_orient.
-  destruct (collapse_rows (orient a t) (labels_of lab (ids a t)) norm min_group incl) as [c'|e]; [|discriminate].
-  intros H. inversion H. repeat split. exists c'. split; reflexivity.
+  intros H. inversion H. repeat split. eexists. split; reflexivity.
 Qed.
 
 Lemma md_of_orient_back a t x : md_of a (orient a t) x = md_of Obs t x.
@@ -628,7 +614,7 @@ Section CollapseAxis.
   Let members (l : Z) := select (map (Z.eqb l) labels) (ids a t).
 
   Lemma ca_setup :
-    exists c', collapse_rows (orient a t) labels norm min_group incl = ROk c' /\
+    exists c', collapse_rows (orient a t) labels norm min_group incl = c' /\
                c = mkC (orient a (ctab c')) (cdiv c') /\ wf (orient a t) /\
                length labels = nobs (orient a t) /\ oids (orient a t) = ids a t.
   Proof.
@@ -707,41 +693,32 @@ Section CollapseAxis.
   Qed.
 End CollapseAxis.
 
-(* when is a one-to-one collapse refused *)
+(* when is a one-to-one collapse refused: an unknown mode or a rejected dict, nothing else *)
 Theorem collapse_o2o_refuses t a lab min_group norm incl mode e :
-  wf t ->
-  (collapse_t t a (OneToOne lab min_group) norm incl mode = RErr e <->
-   (mode_ok mode = false /\ e = E_VALUE) \/
-   (mode_ok mode = true /\ lab_error lab = Some e) \/
-   (mode_ok mode = true /\ lab_error lab = None /\ e = E_TABLE /\ ids (other a) t <> [] /\
-    forall l, In l (labels_of lab (ids a t)) ->
-      (Z.of_nat (length (select (map (Z.eqb l) (labels_of lab (ids a t))) (ids a t))) < min_group)%Z)).
+  collapse_t t a (OneToOne lab min_group) norm incl mode = RErr e <->
+  (mode_ok mode = false /\ e = E_VALUE) \/ (mode_ok mode = true /\ lab_error lab = Some e).
 Proof.
-  intros W. unfold collapse_t. fold (mode_ok mode). destruct (mode_ok mode); cbn [negb].
+  unfold collapse_t. fold (mode_ok mode). destruct (mode_ok mode); cbn [negb].
   2:{ split; [intros H; inversion H; left; split; reflexivity|].
-      intros [[_ ->]|[[H _]|[H _]]]; [reflexivity|discriminate|discriminate]. }
-  destruct (lab_error lab) as [e'|] eqn:LE.
-  { split; [intros H; inversion H; right; left; split; reflexivity|].
-    intros [[H _]|[[_ H]|(_ & H & _)]]; [discriminate|inversion H; reflexivity|discriminate]. }
-  rewrite oids_orient.
-  assert (Wo : wf (orient a t)) by (apply wf_orient; exact W).
-  assert (Ll : length (labels_of lab (ids a t)) = nobs (orient a t))
-    by (unfold nobs; rewrite labels_of_length by exact LE; rewrite oids_orient; reflexivity).
-  destruct (collapse_rows (orient a t) (labels_of lab (ids a t)) norm min_group incl) as [c'|e'] eqn:CR.
-  - split; [discriminate|]. intros [[H _]|[[_ H]|(_ & _ & _ & Hne & Hall)]]; try discriminate.
-    exfalso. assert (collapse_rows (orient a t) (labels_of lab (ids a t)) norm min_group incl = RErr E_TABLE) as K; [|congruence].
-    apply collapse_rows_refuses. split; [|split; [rewrite sids_orient; exact Hne|reflexivity]].
-    destruct (kept_groups (orient a t) (labels_of lab (ids a t)) min_group) as [|[l b] r] eqn:KG; [reflexivity|].
-    assert (In l (map fst (kept_groups (orient a t) (labels_of lab (ids a t)) min_group))) as Hin by (rewrite KG; left; reflexivity).
-    apply (cr_keys _ _ _ Wo Ll) in Hin. destruct Hin as [Hin Hm]. specialize (Hall l Hin). rewrite oids_orient in Hm. lia.
-  - apply collapse_rows_refuses in CR. destruct CR as (KG & Hne & ->). split.
-    + intros H. inversion H; subst e. right. right. repeat split; try reflexivity.
-      * rewrite <- sids_orient. exact Hne.
-      * intros l Hin. destruct (Z.lt_ge_cases (Z.of_nat (length (select (map (Z.eqb l) (labels_of lab (ids a t))) (ids a t)))) min_group) as [Hlt|Hge]; [exact Hlt|].
-        exfalso. assert (In l (map fst (kept_groups (orient a t) (labels_of lab (ids a t)) min_group))) as Hk.
-        { apply (cr_keys _ _ _ Wo Ll). rewrite oids_orient. split; assumption. }
-        rewrite KG in Hk. destruct Hk.
-    + intros [[H _]|[[_ H]|(_ & _ & -> & _)]]; [discriminate|discriminate|reflexivity].
+      intros [[_ ->]|[H _]]; [reflexivity|discriminate]. }
+  destruct (lab_error lab) as [e'|].
+  - split; [intros H; inversion H; right; split; reflexivity|].
+    intros [[H _]|[_ H]]; [discriminate|inversion H; reflexivity].
+  - split; [discriminate|]. intros [[H _]|[_ H]]; discriminate.
+Qed.
+
+(* no label reaches min_group_size: the empty table over the complete other axis *)
+Theorem collapse_below_min t a lab min_group norm incl mode c :
+  wf t -> collapse_t t a (OneToOne lab min_group) norm incl mode = ROk c ->
+  (forall l, In l (labels_of lab (ids a t)) ->
+     (Z.of_nat (length (select (map (Z.eqb l) (labels_of lab (ids a t))) (ids a t))) < min_group)%Z) ->
+  ids a (ctab c) = [] /\ ids (other a) (ctab c) = ids (other a) t /\ wf (ctab c).
+Proof.
+  intros W H Hall. destruct (collapse_ids t a lab min_group norm incl mode c W H) as (_ & K & E & _ & _ & Wc & _).
+  split; [|split; assumption].
+  destruct (ids a (ctab c)) as [|l r] eqn:El; [reflexivity|]. exfalso.
+  assert (In l (l :: r)) as Hin by (left; reflexivity). apply K in Hin. destruct Hin as [Hin Hm].
+  specialize (Hall l Hin). lia.
 Qed.
 
 (* ---------------------------------------------------------------- one-to-many *)
